@@ -20,7 +20,7 @@ SPEC = {
         ("order independence of the non-emitting step: one call per admissible neighbour of every live entry; filed or merged through update()", 'ne_inner', r'^(ne-inner:one-non|file:)'),
         ("order independence of the link to the next observation", 'ne_end', r'^ne-end:(one-emitting|worse|new-state|dropped|next-column)')],
     'bounded': [
-        ('map-order-permutations', suites.case_C10, 1500, 25000, RULE + '; ' + 'non-trivial = >= 3 nodes or an exact tie in some column', '')],
+        ('map-order-permutations', suites.case_C10, 1500, 200000, RULE + '; ' + 'non-trivial = >= 3 nodes or an exact tie in some column', '')],
 }
 
 
